@@ -17,6 +17,7 @@ CONSTANTS Engine,      \* "sync" | "async"
           WithCan,     \* TRUE: also explore can(e)
           PropSet,     \* ids of the Prop predicates to evaluate on every edge
           WithBatch,   \* TRUE: also explore send_events([e1, e2]) for every pair of relevant events
+          WithBurst,   \* TRUE: also explore send_events of maxIterations+2 copies of each relevant event
           MaxStates    \* quick tier: stop expanding once this many distinct states were found
 
 VARIABLES status, config, hist, ctx, output, out, lastStep, errv, dirty
@@ -82,9 +83,15 @@ Can == /\ WithCan /\ Usable /\ status # "uninitialized"
 
 Batch == /\ WithBatch /\ Engine # "pure" /\ Usable /\ status = "running"
          /\ \E e1 \in Relevant : \E e2 \in D.events : \E gv \in GVs :
-               Apply(BatchStep(Pack, <<e1, e2>>, gv, Engine), [op |-> "batch", ev |-> e1, ev2 |-> e2, gv |-> gv])
+               Apply(BatchStep(Pack, <<e1, e2>>, gv, Engine), [op |-> "batch", ev |-> e1, evs |-> <<e1, e2>>, gv |-> gv])
 
-Next == Start \/ Send \/ Can \/ Batch
+\* a burst of maxIterations + 2 copies of one event sent from outside in one call
+BatchN == /\ WithBurst /\ Engine # "pure" /\ Usable /\ status = "running"
+          /\ \E e \in Relevant : \E gv \in GVs :
+                LET evs == [i \in 1..(D.maxIter + 2) |-> e]
+                IN Apply(BatchStep(Pack, evs, gv, Engine), [op |-> "batch", ev |-> e, evs |-> evs, gv |-> gv])
+
+Next == Start \/ Send \/ Can \/ Batch \/ BatchN
 Spec == Init /\ [][Next]_vars
 
 \* breadth-first prefix of the state graph when the bound bites (evidence: exhaustive = false)
@@ -110,7 +117,7 @@ StepOn(eng, step) ==
   IN CASE step.op = "start" -> StartStep(pk, step.gv, eng)
        [] step.op = "send" /\ eng = "pure" /\ status # "running" -> Pack
        [] step.op = "send"  -> SendStep(pk, step.ev, step.gv, eng)
-       [] step.op = "batch" /\ eng # "pure" -> BatchStep(pk, <<step.ev, step.ev2>>, step.gv, eng)
+       [] step.op = "batch" /\ eng # "pure" -> BatchStep(pk, step.evs, step.gv, eng)
        [] OTHER -> pk
 ActsOf(o) == SelectSeq(o, LAMBDA e : e.k = "act")
 ActNames(o) == LET q == ActsOf(o) IN [i \in 1..Len(q) |-> q[i].a]
@@ -138,7 +145,8 @@ Props == [C01 |-> On("C01", C01(PreS, lastStep', PostS, out')),
           C11 |-> On("C11", C11(PreS, lastStep', PostS, out', Engine)),
           C05 |-> On("C05", C05Spec(lastStep')),
           C06 |-> On("C06", C06(PreS, lastStep', PostS, out')),
-          C20 |-> On("C20", C20(PreS, lastStep', PostS, out'))]
+          C20 |-> On("C20", C20(PreS, lastStep', PostS, out')),
+          C13 |-> On("C13", C13(PreS, lastStep', PostS, out'))]
 
 Emit == PrintT(ToJson([mi |-> mi, from |-> PreS, step |-> lastStep', to |-> PostS, dirty |-> dirty',
                        out |-> out', prop |-> Props]))
